@@ -45,6 +45,9 @@ import XdslModel.DCEMini
 import XdslModel.RegAllocLoop
 import XdslModel.DeclGeneric
 import XdslModel.Verbatim
+import XdslModel.PhysReg
+import XdslModel.RiscVLabels
+import XdslModel.ValueNames
 /-!
 Model registry for the driver: `MODEL <name>` selects a `(state, lineStep)` pair.
 A continuation-passing encoding is used because the state types differ.
@@ -105,6 +108,9 @@ def run? (name : String) : Option Runner :=
   | "regalloc_loop" => some fun k => k RegAllocLoop.lineStep ()
   | "decl_generic" => some fun k => k DeclGeneric.lineStep {}
   | "verbatim" => some fun k => k Verbatim.lineStep ()
+  | "physreg" => some fun k => k PhysReg.lineStep ()
+  | "riscv_labels" => some fun k => k RiscV.Labels.lineStep ()
+  | "value_names" => some fun k => k ValueNames.lineStep ()
   | _ => none
 
 end Xdsl.Registry
